@@ -210,6 +210,13 @@ def pull_step(vm, st, nf, value):
                 q.cur = NOVAL
                 return None
             return fork_bool(vm, st, value, keep, dropit)
+        elif kind == 'flat_map':
+            inner = deref(vm, st, value)
+            if not isinstance(inner, IterV) or inner.stages:
+                raise Unsupported(f'flat_map closure returned {inner!r}')
+            # splice the inner items in front of the remaining outer ones; they continue after this stage
+            p.itv = IterV(tuple(('@from', p.stage + 1, x) for x in inner.items) + tuple(p.itv.items), p.itv.stages, p.itv.count)
+            p.cur = NOVAL
         elif kind == 'filter_map':
             v = value
             if isinstance(v, SymEnum):
@@ -230,15 +237,18 @@ def pull_step(vm, st, nf, value):
                 return consumer_end(vm, st, nf)
             item = p.itv.items[0]
             p.itv = IterV(p.itv.items[1:], p.itv.stages, p.itv.count)
-            p.cur = item
-            p.stage = 0
+            if isinstance(item, tuple) and len(item) == 3 and item[0] == '@from':
+                p.cur, p.stage = item[2], item[1]
+            else:
+                p.cur = item
+                p.stage = 0
         if p.stage >= len(p.itv.stages):
             item = p.cur
             p.cur = NOVAL
             return consumer_item(vm, st, nf, item)
         stg = p.itv.stages[p.stage]
         kind = stg[0]
-        if kind in ('map', 'filter_map'):
+        if kind in ('map', 'filter_map', 'flat_map'):
             p.wait = 'stage'
             vm.call_closure(st, stg[1], [p.cur], None, None)
             return None
@@ -402,6 +412,13 @@ def s_into_iter_self(vm, st, callee, args, dest, ret_bb, m):
         return done(vm, st, dest, ret_bb, IterV(v.items))
     if isinstance(v, Tokens):
         return done(vm, st, dest, ret_bb, IterV(v.items))
+    if isinstance(v, Agg) and v.tag in (None, 'Option') and v.variant in (0, 1) and len(v.fields) <= 1:
+        return done(vm, st, dest, ret_bb, IterV(tuple(v.fields) if v.variant == 1 else ()))
+    if isinstance(v, SymEnum) and set(v.cases) == {0, 1} and len(v.cases[0]) == 0 and len(v.cases[1]) == 1:
+        # Option<T> with a symbolic discriminant: an iterator over zero or one item
+        return fork_bool(vm, st, v.discr == 1,
+                         lambda s_: vm.ret(s_, dest, ret_bb, IterV((v.cases[1][0],))),
+                         lambda s_: vm.ret(s_, dest, ret_bb, IterV(())))
     raise Unsupported(f'into_iter of {v!r}')
 
 
@@ -1356,6 +1373,49 @@ def s_group_stream(vm, st, callee, args, dest, ret_bb, m):
     return done(vm, st, dest, ret_bb, g.data)
 
 
+def concretize_str(vm, st, sv, then, limit=8):
+    """continue with then(state, python str) for every value a symbolic string can take on this path (the string must range
+    over a small finite set, e.g. an if-then-else over literals); forks the state"""
+    if isinstance(sv.s, str):
+        return then(st, sv.s)
+    outs = []
+    cur = st
+    expr = sv.z()
+    for _ in range(limit + 1):
+        mdl = vm.model(cur)
+        if mdl is None:
+            break
+        c = mdl.eval(expr, model_completion=True)
+        if not z3.is_string_value(c):
+            raise Unsupported('cannot concretise a string')
+        s2 = cur.clone()
+        s2.pc.append(expr == c)
+        r = then(s2, c.as_string())
+        if r is None:
+            outs.append(s2)
+        elif isinstance(r, list):
+            outs.extend(r)
+        else:
+            outs.append(_Finished(r))
+        cur = cur.clone()
+        cur.pc.append(expr != c)
+    else:
+        raise Unsupported('string ranges over more than %d values' % limit)
+    return outs
+
+
+def s_str_split_char(vm, st, callee, args, dest, ret_bb, m):
+    chv = simp(args[1]) if z3.is_expr(args[1]) else args[1]
+    if not z3.is_bv_value(chv):
+        raise Unsupported('split with a symbolic char')
+    ch = chr(chv.as_long())
+    return concretize_str(vm, st, as_str(vm, st, args[0]), lambda s_, text: vm.ret(s_, dest, ret_bb, IterV(tuple(StrV(x) for x in text.split(ch)))))
+
+
+def s_str_trim(vm, st, callee, args, dest, ret_bb, m):
+    return concretize_str(vm, st, as_str(vm, st, args[0]), lambda s_, text: vm.ret(s_, dest, ret_bb, StrV(text.strip())))
+
+
 def s_trim_matches_char(vm, st, callee, args, dest, ret_bb, m):
     """str::trim_matches / trim_start_matches / trim_end_matches with a `char` pattern"""
     which = m.group(1)
@@ -1422,6 +1482,7 @@ TABLE = [
     (r' as Iterator>::map::<', s_iter_adapter('map')),
     (r' as Iterator>::filter::<', s_iter_adapter('filter')),
     (r' as Iterator>::filter_map::<', s_iter_adapter('filter_map')),
+    (r' as Iterator>::flat_map::<', s_iter_adapter('flat_map')),
     (r' as Iterator>::enumerate$', s_iter_adapter('enumerate')),
     (r' as Iterator>::copied::<', s_iter_adapter('copied')),
     (r' as Iterator>::cloned::<', s_iter_adapter('cloned')),
@@ -1534,6 +1595,8 @@ TABLE = [
     (r'^proc_macro2::Group::stream$', s_group_stream),
     (r'^<proc_macro2::Literal as ToString>::to_string$', s_literal_to_string),
     (r'^core::str::<impl str>::(trim_matches|trim_start_matches|trim_end_matches)::<char>$', s_trim_matches_char),
+    (r'^core::str::<impl str>::split::<char>$', s_str_split_char),
+    (r'^core::str::<impl str>::trim$', s_str_trim),
     (r'^syn::parse_str::<LitStr>$', s_parse_litstr),
     (r'^LitStr::value$', s_litstr_value),
     (r'^syn::Error::new_spanned::<', s_syn_error),
